@@ -277,8 +277,6 @@ not have any effect."""
             on the literal present in the clause. (default: True)
         """
         data = list(clause)
-        if _verif.ENABLED:
-            _verif.note_literals(self, data)
         if len(data) == 0:
             self._clauses.append([])
             return
@@ -287,6 +285,8 @@ not have any effect."""
         if check:
             self._check_and_update(data)
 
+        if _verif.ENABLED:
+            _verif.note_literals(self, data)
         self._clauses.append(data)
 
     def add_clauses_from(self, clauses, check=True):
